@@ -29,7 +29,7 @@ func vhC09Parse[G any](cfg vhConfig) {
 	vhSameError(e1, e2, "C09: repeated Parse")
 	vhSameError(e1, e3, "C09: Parse after String/Lex")
 	var g G
-	root := vhGrammarOf(reflect.TypeOf(g), cfg.unions)
+	root := vhGrammar(reflect.TypeOf(g), cfg.unions)
 	if e1 == nil {
 		vhSameAST(vhActual(root, reflect.ValueOf(a1).Elem()), vhActual(root, reflect.ValueOf(a2).Elem()), "C09: repeated Parse")
 		vhSameAST(vhActual(root, reflect.ValueOf(a1).Elem()), vhActual(root, reflect.ValueOf(a3).Elem()), "C09: Parse after String/Lex")
